@@ -421,6 +421,7 @@ impl System for ILongSys {
 
 fn main() {
 	refmodel::set_eps(eps());
+	refmodel::set_floor(ValueType::MIN_POSITIVE as f64);
 	let mut h = H::start("C07");
 	let thorough = h.thorough();
 	let only = std::env::var("VERIF_ONLY").ok();
